@@ -313,3 +313,14 @@ Proof.
   intros E G _. destruct (C19_prep_contexts s s' E) as (_ & Hg & _).
   exists (reset_ctx rc). rewrite Hg, G. repeat split.
 Qed.
+
+(* args_valid spelled out (the statement of Properties/C19.v) *)
+Lemma args_valid_def : forall o, args_valid o <->
+  match o with
+  | OBind _ prov _ _ qos owner ok => ok = true -> 0 < qos /\ prov <> 0 /\ owner <> 0
+  | OUpdate _ _ _ _ qos _ ok => ok = true -> 0 <= qos
+  | OCall _ _ _ cs _ _ _ _ _ _ _ _ ok => ok = true -> cs <> 0
+  | OModCall _ _ _ cs _ _ _ _ _ _ _ _ _ _ => cs <> 0
+  | _ => True
+  end.
+Proof. intros o. destruct o; cbn [args_valid]; tauto. Qed.
